@@ -104,6 +104,12 @@ func directCorpus() []*directInput {
 		// F3g (fixed): setting the URN list the contact already has dropped the channel pointers silently
 		{Universe: simpleUniverse, Contact: bob("active", []string{"tel:+593979111111?channel=" + channelDefs[3].UUID, "telegram:12345?channel=" + ch1}, []int{3, 4}), Modifier: &modSpec{Kind: "urns", Mode: "set", URNs: []string{"tel:+593979111111?channel=" + channelDefs[3].UUID, "telegram:12345?channel=" + ch1}}},
 		{Universe: simpleUniverse, Contact: bob("active", nil, []int{3}), Modifier: &modSpec{Kind: "urns", Mode: "append", URNs: []string{"tel:+593979222222?channel=" + channelDefs[3].UUID}}},
+		// affinity to a channel that is not in the assets (nil pointer, raw URN keeps the query): clearing / re-assigning the
+		// preferred channel rewrites the raw URN, which must be reported
+		{Universe: simpleUniverse, Contact: bob("active", []string{staleURNs[2]}, []int{3}), Modifier: &modSpec{Kind: "channel", Channel: -1}},
+		{Universe: simpleUniverse, Contact: bob("active", []string{"telegram:12345?channel=" + ch1, staleURNs[0], staleURNs[1]}, []int{3, 4}), Modifier: &modSpec{Kind: "channel", Channel: -1}},
+		{Universe: simpleUniverse, Contact: bob("active", []string{staleURNs[1], staleURNs[0]}, []int{3, 4}), Modifier: &modSpec{Kind: "channel", Channel: 0}},
+		{Universe: simpleUniverse, Contact: bob("active", []string{staleURNs[0], staleURNs[4]}, []int{3}), Modifier: &modSpec{Kind: "channel", Channel: 1}},
 		// a group reference repeated in the stored contact (F6c, fixed by 595be89): Remove deleted one entry only
 		{Universe: simpleUniverse, Contact: &contactSpec{Name: "Jim", Lang: "eng", Status: "active", Groups: []int{3, 3, 0, 0}, Fields: map[string]string{}}, Modifier: &modSpec{Kind: "language", Text: "fra"}},
 		{Universe: simpleUniverse, Contact: &contactSpec{Name: "Jim", Lang: "eng", Status: "active", Groups: []int{0, 1, 0}, Fields: map[string]string{}}, Modifier: &modSpec{Kind: "groups", Mode: "remove", Groups: []int{0}}},
